@@ -110,7 +110,7 @@ def make_queue(log, cfg):
     if cfg['proxy']:
         return ProxyQueue(SRelay(log, cfg['relay'])), None
     st = FStore(log, cfg['fail'], cfg['slow'])
-    q = Queue(st, None)
+    q = Queue(st, None, store_pool=cfg.get('store_pool'))
     for p in cfg['policies']:
         q.add_policy({'RS': RecipientSplit, 'DS': RecipientDomainSplit, 'Y': YieldPolicy}[p]())
     return q, st
@@ -259,6 +259,16 @@ def main():
                 for fail in ({}, {1: 'reply'}, {k + 1: 'noreply'}):
                     for slow in ([], [1], [k + 1]):
                         cases.append(dict(proxy=False, policies=policies, nrcpt=nrcpt, nenv=k, fail=fail, slow=slow, relay='none', nsess=nsess))
+    # a bounded store pool that is full when the next client hands off: the acknowledgement still waits for the write
+    for policies in ([], ['RS'], ['Y', 'RS']):
+        for nrcpt in (1, 3):
+            k = nenv(policies, nrcpt)
+            for nsess in (2, 3):
+                for sp in (1, 2):
+                    for fail in ({}, {k + 1: 'reply'}, {2: 'noreply'}):
+                        for slow in ([1], [1, k + 1], list(range(1, 2 * k + 1))):
+                            cases.append(dict(proxy=False, policies=policies, nrcpt=nrcpt, nenv=k, fail=fail, slow=slow, relay='none', nsess=nsess,
+                                              store_pool=sp))
     for cfg in cases:
         for edge in ('smtp', 'wsgi'):
             idx += 1
@@ -268,8 +278,9 @@ def main():
             stats['executions'] += 1
             jc = dict(cfg)
             jc.setdefault('nsess', 1)
+            jc.setdefault('store_pool', 0)
             jc['fail'] = {str(k): v for k, v in cfg['fail'].items()}
-            f.write(json.dumps({'id': shard + n * nshards, 'cls': edge + ('-proxy' if cfg['proxy'] else '') + ('-split' if cfg['nenv'] > 1 else '') + ('-conc' if cfg.get('nsess', 1) > 1 else ''),
+            f.write(json.dumps({'id': shard + n * nshards, 'cls': edge + ('-proxy' if cfg['proxy'] else '') + ('-split' if cfg['nenv'] > 1 else '') + ('-conc' if cfg.get('nsess', 1) > 1 else '') + ('-pool' if cfg.get('store_pool') else ''),
                                 'cfg': jc, 'ev': ev}, separators=(',', ':')) + '\n')
             n += 1
     f.write(json.dumps({'summary': stats}) + '\n')
